@@ -1,6 +1,6 @@
 """C01 — bounded SPSC queue: necessary structural conditions (DESIGN §4 C01)."""
 import re
-from qlib import (AnalysisBroken, atomic_op, is_release, is_acquire, is_this_field, field_name, strip, norm_cmp,
+from qlib import (peel_not, AnalysisBroken, atomic_op, is_release, is_acquire, is_this_field, field_name, strip, norm_cmp,
                   expr_key, is_call, const_val, is_null, isnode, walk, short, var_ref, EXPLICIT_CASTS)
 import roles as roles_mod
 
@@ -350,10 +350,20 @@ def check_empty(ctx, tag, m):
             ops_ = (strip(sc["lhs"]), strip(sc["rhs"])) if sc["k"] == "BinaryOperator" else None
             if ops_ and {field_name(ops_[0]), field_name(ops_[1])} == {"_writer_pos_cache", "_reader_pos"}:
                 eqs.append((bid, c, nc))
-    if not eqs:
+    # `return _writer_pos_cache == _reader_pos;` is a test and its two exits in one: 'empty' exactly on equal
+    ret_eq, ret_ne = [], []
+    for r in g.return_nodes():
+        rn = g.node_ast(r)
+        v = strip(rn.get("val")) if isnode(rn) else None
+        nv = norm_cmp(v) if isnode(v) else None
+        if nv and nv[0] in ("==", "!=") and isnode(v):
+            core = peel_not(v)
+            if isnode(core) and core["k"] == "BinaryOperator" and {field_name(strip(core["lhs"])), field_name(strip(core["rhs"]))} == {"_writer_pos_cache", "_reader_pos"}:
+                (ret_eq if nv[0] == "==" else ret_ne).append(r)
+    if not eqs and not ret_eq and not ret_ne:
         raise AnalysisBroken("%s::empty: emptiness test of a recognised shape not found" % tag)
-    ctx.ob("C01.R4d", "%s::empty:twin-tests" % tag, len(eqs) >= 2 and len(set(e[2] for e in eqs)) == 1,
-           "empty() tests writer_pos_cache == reader_pos before and after the acquire reload with the same predicate (%d test(s))" % len(eqs), fn=m)
+    ctx.ob("C01.R4d", "%s::empty:twin-tests" % tag, len(eqs) + len(ret_eq) >= 2 and len(set((e[2][1], e[2][2]) for e in eqs)) <= 1,
+           "empty() tests writer_pos_cache == reader_pos before and after the acquire reload with the same predicate (%d test(s))" % (len(eqs) + len(ret_eq)), fn=m)
     reloads = []
     for n in m.walk():
         if n["k"] == "BinaryOperator" and n["op"] == "=" and is_this_field(n["lhs"], "_writer_pos_cache"):
@@ -361,10 +371,12 @@ def check_empty(ctx, tag, m):
             if a and a["kind"] == "load" and is_this_field(a["obj"], "_atomic_writer_pos"):
                 reloads.append(n)
     rp = [p for n in reloads for p in g.positions(n)]
-    trues = g.return_nodes(lambda r: const_val(r.get("val")) == 1)
-    falses = g.return_nodes(lambda r: const_val(r.get("val")) == 0)
+    lit_trues = g.return_nodes(lambda r: const_val(r.get("val")) == 1)
+    lit_falses = g.return_nodes(lambda r: const_val(r.get("val")) == 0)
+    trues = lit_trues + ret_eq + ret_ne
+    falses = lit_falses + ret_eq + ret_ne
     if not trues or not falses:
-        raise AnalysisBroken("%s::empty: literal true/false returns not found" % tag)
+        raise AnalysisBroken("%s::empty: true/false returns not found" % tag)
     ok = bool(rp) and not g.exists_path([g.entry_node], trues, avoid_nodes=rp)
     ctx.ob("C01.R4e", "%s::empty:true-after-reload" % tag, ok,
            "empty() reports 'empty' only after re-loading the published writer position (acquire)", fn=m)
@@ -376,16 +388,20 @@ def check_empty(ctx, tag, m):
         eq_lab = "T" if nc[0] == "==" else "F"
         eq_edges.append((bid, eq_lab))
         ne_edges.append((bid, "F" if eq_lab == "T" else "T"))
-    ok = not g.exists_path([g.entry_node], trues, avoid_edges=eq_edges)
+    ok = not g.exists_path([g.entry_node], lit_trues, avoid_edges=eq_edges) and not ret_ne
     ctx.ob("C01.R4b", "%s::empty:true-only-when-equal" % tag, ok,
            "empty() returns true only through the positions-equal outcome", fn=m)
     after = g.reach(rp)
     late = [(bid, c, nc) for (bid, c, nc) in eqs if (bid, len(g.blocks[bid]["el"])) in after]
-    ok = bool(late)
+    late_ret = [r for r in ret_eq if r in after]
+    ok = (bool(late) or bool(late_ret)) and not ret_ne
     for (bid, c, nc) in late:
         eq_lab = "T" if nc[0] == "==" else "F"
-        if g.exists_path([(bid, len(g.blocks[bid]["el"]))], falses, avoid_edges=[(bid, "F" if eq_lab == "T" else "T")]):
+        if g.exists_path([(bid, len(g.blocks[bid]["el"]))], lit_falses, avoid_edges=[(bid, "F" if eq_lab == "T" else "T")]):
             ok = False
+    if not late and g.exists_path(rp, lit_falses):
+        # after the reload nothing but the returned comparison decides: a literal 'not empty' behind the reload is unconditional
+        ok = False
     ctx.ob("C01.R4b", "%s::empty:false-only-when-different" % tag, ok,
            "after the reload, the positions-equal outcome never leads to 'not empty' (a committed record is not reported twice / an empty queue is not read)", fn=m)
 
